@@ -25,9 +25,12 @@ def US_UNIT(threads, init_inline=False, multi=0, unroll=2):
 UNITS = {
   'sokey': dict(wrapper='w_sokey.cpp', mode='seq', selftest=True, cut=['5localEv']),
   'us_i_i': US_UNIT({'vp_thr_i': ['a', 'b']}),
+  'us_i_i1': US_UNIT({'vp_thr_i': ['a', 'b']}, unroll=1),
   'us_i_f': US_UNIT({'vp_thr_i': ['a'], 'vp_thr_f': ['b']}),
-  'usI_i_i': US_UNIT({'vp_thr_i': ['a', 'b']}, init_inline=True),
+  'seg2': dict(wrapper='w_uset.cpp', mode='lcs', unroll=2, ptratomics=True, threads={'vp_thr_s': ['a', 'b']}, prune=True),
   'us_i_t': US_UNIT({'vp_thr_i': ['a'], 'vp_thr_t': ['b']}, unroll=2),
+  'usI_g_g1': US_UNIT({'vp_thr_g': ['a', 'b']}, init_inline=True, unroll=1),
+  'usI_g_i1': US_UNIT({'vp_thr_g': ['a'], 'vp_thr_i': ['b']}, init_inline=True, unroll=1),
 }
 USD = {'ROUNDS': 1, 'NB': 2, 'NPRE': 2, 'PRE0': 2, 'PRE1': 3}
 HARNESSES = [
@@ -39,8 +42,17 @@ HARNESSES = [
   dict(name='uset_find_2t', unit='us_i_f', harness='h_uset.c', defines=dict(USD, TA='i', TB='f', NV=3, ND=1),
        scenarios=[{'KA0': 5, 'KB0': 5}, {'KA0': 5, 'KB0': 3}], cbmc=US_CBMC, timeout=900,
        desc='', bounds={}),
-  dict(name='uset_init_2t', unit='usI_i_i', harness='h_uset.c', defines=dict(ROUNDS=1, TA='i', TB='i'),
-       scenarios=[dict(NB=2, NPRE=1, PRE0=2, KA0=5, KB0=7, NV=3, ND=2), dict(NB=4, NPRE=2, PRE0=4, PRE1=1, KA0=7, KB0=5, NV=4, ND=2)], cbmc=US_CBMC, timeout=900,
+  dict(name='uset_init_gg', unit='usI_g_g1', harness='h_uset.c', defines=dict(ROUNDS=1, TA='g', TB='g'),
+       scenarios=[dict(NB=2, NPRE=1, PRE0=2, KA0=1, KB0=1, NV=1, ND=2), dict(NB=4, NPRE=2, PRE0=4, PRE1=1, KA0=3, KB0=3, NV=2, ND=3)], cbmc=US_CBMC, timeout=900,
+       desc='', bounds={}),
+  dict(name='uset_init_gi', unit='usI_g_i1', harness='h_uset.c', defines=dict(ROUNDS=1, TA='g', TB='i'),
+       scenarios=[dict(NB=4, NPRE=2, PRE0=4, PRE1=1, KA0=3, KB0=5, NV=3, ND=2)], cbmc=US_CBMC, timeout=900,
+       desc='', bounds={}),
+  dict(name='uset_ins1_2t', unit='us_i_i1', harness='h_uset.c', defines=dict(USD, TA='i', TB='i', NV=4, ND=1),
+       scenarios=[{'KA0': 5, 'KB0': 5}], cbmc=US_CBMC, timeout=900,
+       desc='', bounds={}),
+  dict(name='segtab_2t', unit='seg2', harness='h_segtab.c', defines=dict(ROUNDS=2),
+       scenarios=[dict(IA=1, IB=1), dict(IA=0, IB=1), dict(IA=3, IB=3), dict(IA=1, IB=2), dict(IA=5, IB=6)], cbmc=['--unwind', '70', '--object-bits', '10'], timeout=600,
        desc='', bounds={}),
   dict(name='uset_trav_2t', unit='us_i_t', harness='h_uset.c', defines=dict(USD, TA='i', TB='t', NV=3, ND=1),
        scenarios=[{'KA0': 5}], cbmc=US_CBMC, timeout=900,
